@@ -151,3 +151,28 @@ def events_mgr2(config, name='wf'):
     mgr.xtrigger_mgr = XtrigStub()
     mgr.data_store_mgr.__dict__['xtrigger_tasks'] = {}
     return mgr
+
+
+def history_db(pool):
+    """Make the pool's stub DB manager remember task states and outputs the
+    way the task_states / task_outputs tables do, so that spawn_task sees the
+    history of instances that already ran (model of the tables; the SQL is
+    outside).  Returns the DaoStub."""
+    import json
+    db = pool.workflow_db_mgr
+    dao = db.pri_dao
+
+    def record(itask, *a, **k):
+        key = (itask.tdef.name, str(itask.point))
+        dao.prev_instances[key] = [(
+            itask.submit_num, itask.flow_wait, set(itask.flow_nums),
+            itask.state.status)]
+        outs = {
+            itask.state.outputs._message_to_trigger[m]: m
+            for m, done in itask.state.outputs._completed.items() if done}
+        dao.task_outputs[key] = {json.dumps(outs): set(itask.flow_nums)}
+    for name in ('put_update_task_state', 'put_update_task_outputs',
+                 'put_insert_task_states', 'put_insert_task_outputs',
+                 'put_update_task_flow_wait'):
+        db.__dict__[name] = record
+    return dao
